@@ -3,6 +3,9 @@
 mod lib_util;
 mod windows;
 mod c01;
+mod c02;
+mod c07;
+mod daywalk;
 mod c03;
 mod c10;
 mod queries;
@@ -57,7 +60,9 @@ fn main() {
   silence_panics();
   let n = match prop.as_str() {
     "C01" => c01::run(&ctx),
+    "C02" => c02::run(&ctx),
     "C03" => c03::run(&ctx),
+    "C07" => c07::run(&ctx),
     "C10" => c10::run(&ctx),
     _ => {
       eprintln!("unknown property {}", prop);
